@@ -1,4 +1,7 @@
 # Per-property runner configuration (see vcheck: DEFAULT).
+FINE_HEAVY = ["fine-default", "fine-tiny", "sim-default", "fine-default", "fine-tiny", "sim-tiny", "fine-default", "fine-tiny"]
+FINE_HALF = ["fine-default", "sim-tiny", "fine-tiny", "sim-default", "fine-default", "sim-tiny", "fine-tiny", "sim-default"]
+
 PROPS = {
     # whole-library memory safety: every workload under the SIM+ASAN engine (two builds)
     "C11": {"variants": ["asan-default", "asan-nosba"], "prop_arg": "ALL", "quick_s": 40, "thorough_s": 900, "workers": 8},
@@ -7,7 +10,9 @@ PROPS = {
     "C10": {"variants": ["fine-default", "fine-tiny", "sim-default", "fine-default", "fine-tiny", "sim-tiny", "fine-default", "fine-tiny"],
             "prop_arg": "RACE", "quick_s": 40, "thorough_s": 900, "workers": 8},
     # workloads that opt into the TSO store-buffer fault get it in the fine variants only: give those most workers
-    "C36": {"variants": ["fine-default", "fine-tiny", "sim-default", "fine-default", "fine-tiny", "sim-tiny", "fine-default", "fine-tiny"]},
+    "C36": {"variants": FINE_HEAVY},
+    "C07": {"variants": FINE_HALF}, "C09": {"variants": FINE_HALF}, "C21": {"variants": FINE_HALF}, "C22": {"variants": FINE_HALF},
+    "C23": {"variants": FINE_HALF}, "C24": {"variants": FINE_HEAVY}, "C34": {"variants": FINE_HALF}, "C19": {"variants": FINE_HALF},
     "C46": {"quick_s": 25},
     "C03": {"quick_s": 25},
     "C29": {"quick_s": 25},
